@@ -284,11 +284,13 @@ def gen_plain_float(ctx):
     op = r.choice(["contains", "overlaps", "intersection", "add", "sub", "mul", "div", "containsI"])
     case = {"kind": "plainf", "op": op, "a": a, "b": b}
     if op in ("contains", "add", "sub"):
-        case["x"] = r.choice([a, b, f(), (a + b) / 2])
+        case["x"] = r.choice([a, b, f(), a / 2 + b / 2])         # (a + b) / 2 overflows to inf next to DBL_MAX
     elif op in ("mul", "div"):
         case["x"] = r.choice([f(), -abs(f()), abs(f())])
     else:
         case["c"], case["d"] = sorted([r.choice([a, b, f()]), f()])
+    if not all(math.isfinite(case[k]) for k in ("a", "b", "x", "c", "d") if k in case):
+        return gen_plain_float(ctx)                              # the property is about finite values only
     return case
 
 
@@ -436,6 +438,10 @@ def run_plain(ctx, raw):
     op = case["op"]
     ctx.case(raw)
     ctx.tag("plain/" + op)
+    if not all(math.isfinite(float(case[k])) for k in ("a", "b", "x", "c", "d") if k in case):
+        ctx.tag("plain/non-finite-excluded")
+        ctx.excluded += 1                                     # inf / nan operands (stored cases): outside the quantifier, no verdict
+        return
     if any(isinstance(raw.get(k), str) for k in ("a", "b", "c", "d", "x")):
         ctx.tag("plain/numpy-operand")
         if has32(raw):
@@ -468,6 +474,9 @@ def run_plain(ctx, raw):
         ok = impl_c == want
     else:
         ctx.tag("plain/arbitrary-floats")
+        if op == "div" and frac(case["x"]) == 0:
+            ctx.excluded += 1                                 # zero divisor: not admissible
+            return
         if op in ("mul", "div", "add", "sub") and "ok" in want:
             mags = [abs(unrat(q)) for q in want["ok"]]
             if any(m != 0 and not (FMIN <= m <= FMAX) for m in mags):
